@@ -391,6 +391,37 @@ def uuid_str(I, v):
     return SStr(D.uuid_str(t))
 
 
+def _install_http():
+    import http
+    import io
+
+    @model(http.HTTPStatus, "HTTPStatus(code): the member with that value, ValueError for an unknown code (uninterpreted predicate)")
+    def _httpstatus(I, args, kwargs):
+        (v,) = args
+        if isinstance(v, int):
+            try:
+                return http.HTTPStatus(v)
+            except ValueError as e:
+                I.raise_(ValueError, str(e))
+        if isinstance(v, SV):
+            v = I.view(v)
+        if isinstance(v, SInt):
+            known = z3.Or(*[v.t == m.value for m in http.HTTPStatus])
+            if not I.branch(known):
+                I.raise_(ValueError, "not a valid HTTPStatus")
+            return SObj(http.HTTPStatus, {"value": v})
+        if isinstance(v, (str, SStr)):
+            I.raise_(ValueError, "not a valid HTTPStatus")
+        raise Unsupported("HTTPStatus of a non-int")
+
+    @model(io.BytesIO, "io.BytesIO(b): a file object over the given bytes")
+    def _bytesio(I, args, kwargs):
+        return SObj(io.BytesIO, {"initial": args[0] if args else None})
+
+
+_install_http()
+
+
 def _install_third_party():
     from dateutil.parser import isoparse
     import uuid
@@ -493,6 +524,8 @@ def call_method(I, recv, name, args, kwargs):
                 I.raise_(type(e), str(e))
             if isinstance(r, list):
                 return SList(r)
+            if isinstance(r, bytes):
+                return SObj(bytes, {"__encoded__": recv})
             return r
         t = I.to_str_term(recv)
         if name == "lower" and not args:
@@ -513,6 +546,18 @@ def call_method(I, recv, name, args, kwargs):
             res = f(t, a0, a1)
             I.fact(z3.Implies(z3.Not(z3.Contains(t, a0)), res == t))     # assumed: nothing to replace => unchanged
             return SStr(res)
+        if name == "format" and isinstance(recv, str) and not args:
+            import string as _string
+            parts = []
+            for lit, field, spec, conv in _string.Formatter().parse(recv):
+                parts.append(lit)
+                if field is not None:
+                    if spec or conv or field not in kwargs:
+                        if field not in kwargs and not spec and not conv:
+                            I.raise_(KeyError if not field.isdigit() and field != "" else IndexError, field)
+                        raise Unsupported("str.format with format spec/conversion")
+                    parts.append(I.py_str(kwargs[field]))
+            return I.concat(parts)
         if name == "format":
             raise Unsupported("str.format")
         if name == "join" and len(args) == 1:
@@ -522,6 +567,8 @@ def call_method(I, recv, name, args, kwargs):
                     parts.append(recv)
                 parts.append(x)
             return I.concat(parts) if parts else ""
+        if name == "encode" and not args:
+            return SObj(bytes, {"__encoded__": recv})
         if name in ("strip", "lstrip", "rstrip", "split", "title", "capitalize", "encode"):
             f = z3.Function(f"str_{name}", z3.StringSort(), z3.StringSort())
             if name in ("split", "encode") or args:
